@@ -10,11 +10,19 @@ def build(S: Sources) -> Unit:
     return Unit(
         property_id="C19",
         verus=vfiles,
-        kani=L.loop_kani("C19", S, errs),
+        kani=L.loop_kani("C19", S, errs) + [_clear_kani()],
         build_errors=errs,
         undecided_clauses=L.LOOP_UNDECIDED + EXTRA_UNDECIDED,
         assumptions=L.LOOP_ASSUMPTIONS,
     )
+
+
+def _clear_kani():
+    ks = KaniSpec(injections={COLL: KANI_CLEAR},
+                  harnesses=[KaniHarness("verif_c19_clear::input_fed_kinds_are_all_cleared", "bounded", bound="one collection: two input-fed kinds with one count each, one constant counter",
+                                         covers="CounterCollection::clear_input_counts (compiled; set_input_counter / set_counter / push_counter / counts are the real ones)")])
+    ks.tag = "C19"
+    return ks
 
 
 EXTRA_UNDECIDED = [
@@ -62,3 +70,30 @@ def clear_counts_files(S: Sources):
     secs += wrap_impl("impl CounterCollection", [sec])
     csecs = copy.deepcopy(secs) + [ghost("canaries", "pub fn canary_clear_counts(c: &mut CounterCollection) { c.clear_input_counts(); assert(false); }", kind="lemma")]
     return [VerusFile("c19_clear_counts", secs), VerusFile("c19_clear_counts_canary", csecs, expect_fail=True)]
+
+
+KANI_CLEAR = r"""
+#[cfg(kani)]
+mod verif_c19_clear {
+    use super::*;
+    use crate::counter::{BytesCount, ItemsCount};
+    /// the real clear_input_counts on a collection with TWO input-fed kinds and one constant counter: after a tuning round is
+    /// discarded no per-sample count of either input-fed kind is left, the constant counter keeps its value
+    #[kani::proof]
+    #[kani::unwind(6)]
+    fn input_fed_kinds_are_all_cleared() {
+        let mut c = CounterCollection::default();
+        c.set_input_counter::<u8, ItemsCount, _>(|_| ItemsCount::new(1u32));
+        c.set_input_counter::<u8, BytesCount, _>(|_| BytesCount::new(1u32));
+        c.set_counter(AnyCounter::known(KnownCounterKind::Chars, 7));
+        c.push_counter(AnyCounter::known(KnownCounterKind::Items, 5));
+        c.push_counter(AnyCounter::known(KnownCounterKind::Bytes, 6));
+        c.clear_input_counts();
+        assert!(c.counts(KnownCounterKind::Items).is_empty(), "[C19] counter data of discarded rounds is discarded (items)");
+        assert!(c.counts(KnownCounterKind::Bytes).is_empty(), "[C19] counter data of discarded rounds is discarded (bytes)");
+        assert!(c.counts(KnownCounterKind::Chars).len() == 1 && c.counts(KnownCounterKind::Chars)[0] == 7, "[C19] a constant counter is not per-sample data");
+        assert!(c.counts(KnownCounterKind::Cycles).is_empty());
+        kani::cover!(true);
+    }
+}
+"""
